@@ -412,6 +412,50 @@ func buildPoints(x *mon.Ctx, nrand int, sparse bool) *pointSet {
 			ps.sparse = append(ps.sparse, &npoint{name: fmt.Sprintf("y=+-2^%d", k), kind: "sparse-y", p: pt})
 		}
 	}
+	// coordinates that are structured in the MONTGOMERY domain (x*2^256 mod p is the value the
+	// assembly and fiat back ends compute with): abscissae for the whole set, ordinates (cubic
+	// solver) for the thresholds only. Appended to sparse: every user of sparse meets them.
+	if sparse {
+		rinv := new(big.Int).ModInverse(modP(p256), ec.P)
+		nx, ny := 0, 0
+		for _, mv := range montSet(ec.P, "p", x.Thorough()) {
+			m := new(big.Int).Set(mv.m)
+			for step := 0; step < 64 && m.Sign() >= 0 && m.Cmp(ec.P) < 0; step++ {
+				xv := modP(mul(m, rinv))
+				if pt, ok := liftX(xv, uint(nx&1)); ok {
+					if !ec.OnCurve(pt.X, pt.Y) || modP(mul(pt.X, p256)).Cmp(m) != 0 {
+						x.HarnessError("Montgomery-domain point search is wrong for %s", mv.name)
+					}
+					ps.sparse = append(ps.sparse, &npoint{name: fmt.Sprintf("x=R^-1*(%s%+d)", mv.name, int64(step)*mv.dir), kind: "mont-x", p: pt})
+					nx++
+					break
+				}
+				m = add(m, bi(mv.dir))
+			}
+		}
+		for _, mv := range montSet(ec.P, "p", false) {
+			if ny >= 28 || len(mv.name) < 5 || mv.name[:5] != "floor" {
+				continue // ordinates: thresholds only (a cubic has to be solved for each try)
+			}
+			m := new(big.Int).Set(mv.m)
+			for step := 0; step < 6; step++ {
+				yv := modP(mul(m, rinv))
+				if xv := uniqueXForY(yv); xv != nil {
+					pt := ec.Point{X: xv, Y: yv}
+					if !ec.OnCurve(pt.X, pt.Y) {
+						x.HarnessError("Montgomery-domain ordinate search is wrong for %s", mv.name)
+					}
+					ps.sparse = append(ps.sparse, &npoint{name: fmt.Sprintf("y=R^-1*(%s%+d)", mv.name, int64(step)*mv.dir), kind: "mont-y", p: pt})
+					ny++
+					break
+				}
+				m = add(m, bi(mv.dir))
+			}
+		}
+		if nx < 40 || ny < 10 {
+			x.HarnessError("Montgomery-domain point search found only %d abscissae / %d ordinates", nx, ny)
+		}
+	}
 	ps.all = append(ps.all, ps.inf)
 	ps.all = append(ps.all, ps.small...)
 	ps.all = append(ps.all, ps.extreme...)
